@@ -127,3 +127,26 @@ Definition judge_resolvable (c : symtab * list str * list stmt) : nat :=
     | None => 2
     end
   else 0.
+
+(* ---- _add_procedure_calls on a statement rendered from the grammar, no ASSOCIATE in force:
+   (earlier calls, the statement, its masked text, impl: Some calls | None = exception).
+   Spec side, without any name table: every reference of the statement that does not end in an
+   INTRINSICS entry and is not merely an inner part of a designator must be among the recorded
+   chains; every chain added must be a reference of the statement; none twice. ---- *)
+Definition chain_in (ch : chain) (l : list chain) : bool := existsb (list_eqb str_eqb ch) l.
+
+Definition judge_add_stmt (c : list chain * stmt * str * option (list chain)) : nat :=
+  let '(calls, st, line, impl) := c in
+  let model_bad := negb (opt_eqb chains_eqb (Some (add_calls [] calls line)) impl) in
+  let applicable := seg_stmt st && wf_stmt st && plain_ok st && str_eqb line (render_stmt st) in
+  let spec_bad :=
+    applicable &&
+    match impl with
+    | None => true
+    | Some l =>
+      let want := filter (fun ch => negb (str_in (last_of ch) INTRINSICS) && negb (chain_in ch (stmt_inner st))) (stmt_refs st) in
+      negb (forallb (fun ch => chain_in ch l) want
+            && forallb (fun ch => chain_in ch calls || chain_in ch (stmt_refs st)) l
+            && (negb (nodup_b (list_eqb str_eqb) calls) || nodup_b (list_eqb str_eqb) l))
+    end in
+  verdict model_bad spec_bad 0.
